@@ -217,7 +217,21 @@ def do_sweep(case):
     try:
         name = case["name"]
         open(os.path.join(d, name + ".mo"), "w").write(case["template"].replace("@N@", "0"))
-        a.transfer_model(d, name, dict(case["opts"]))
+        wc = []
+
+        class CountFile(CutFile):
+            def write(self, b):
+                wc.append(len(bytes(b)))
+                return self.f.write(b)
+
+        def copen(path, mode="r", *args, **kw):
+            f = builtins.open(path, mode, *args, **kw)
+            return CountFile(f, None, None) if str(path).endswith(".pymoca_cache") and "w" in mode else f
+        a.open = copen
+        try:
+            a.transfer_model(d, name, dict(case["opts"]))
+        finally:
+            a.__dict__.pop("open", None)
         data = open(os.path.join(d, name + ".pymoca_cache"), "rb").read()
         frames = [[pos, arg] for op, arg, pos in pickletools.genops(data) if op.name == "FRAME"]
         p = os.path.join(d, "prefix.bin")
@@ -249,7 +263,7 @@ def do_sweep(case):
         for n in offs:
             if not rle or rle[-1][1] != res[n]:
                 rle.append([n, res[n]])
-        return {"n": n_all, "frames": frames, "rle": rle, "checked": len(offs)}
+        return {"n": n_all, "frames": frames, "rle": rle, "checked": len(offs), "write_calls": wc}
     finally:
         shutil.rmtree(d, ignore_errors=True)
 
@@ -461,7 +475,130 @@ def do_codegen(case):
     return r
 
 
+def big_model(n):
+    lines = ["model Big"]
+    for i in range(n):
+        lines.append("  Real x%d(start=%d.5, min=-1e3, max=1e3, nominal=%d);" % (i, i, i + 1))
+    lines += ["  parameter Real k = 2;", "equation"]
+    for i in range(n):
+        lines.append("  der(x%d) = -k*x%d + sin(x%d)*%d.25;" % (i, i, (i + 1) % n, i))
+    lines.append("end Big;")
+    return "\n".join(lines) + "\n"
+
+
+def do_torn(case):
+    """two real transfer_model calls (options oa, ob) on an empty folder of a model whose cache file takes
+    several write calls; threads A/B advance one step at a time (checkpoints: after load_model, before the
+    open, before every write call) along `schedule`; then a third caller with options oa and one with ob
+    load a snapshot of the folder at that point.  Afterwards A and B run to completion."""
+    a = api()
+    name, text = "Big", big_model(case["n"])
+    d = tempfile.mkdtemp(prefix="c21t_")
+    tmp = [d]
+    try:
+        mo = os.path.join(d, name + ".mo")
+        open(mo, "w").write(text)
+        os.utime(mo, (T0, T0))
+        sched = Sched(["A", "B"])
+        writes = {"A": [], "B": []}
+
+        class F:
+            def __init__(s, f):
+                s.f = f
+
+            def write(s, b):
+                b = bytes(b)
+                sched.checkpoint()
+                writes.get(threading.current_thread().name, []).append(len(b))
+                r = s.f.write(b)
+                s.f.flush()
+                return r
+
+            def __enter__(s):
+                return s
+
+            def __exit__(s, *e):
+                s.f.close()
+                return False
+
+            def __getattr__(s, n):
+                return getattr(s.f, n)
+
+        def op(p, m="r", *ar, **k):
+            if str(p).endswith(".pymoca_cache") and "w" in m:
+                sched.checkpoint()
+                return F(builtins.open(p, m, *ar, **k))
+            return builtins.open(p, m, *ar, **k)
+
+        orig_load = a.load_model
+
+        def load_model(*ar, **k):
+            try:
+                return orig_load(*ar, **k)
+            finally:
+                sched.checkpoint()
+
+        res = {}
+
+        def work(nm, o):
+            try:
+                a.transfer_model(d, name, json.loads(json.dumps(o)))
+                res[nm] = "ok"
+            except BaseException as e:  # noqa
+                res[nm] = "Raised %s" % type(e).__name__
+        a.load_model, a.open = load_model, op
+        ths = [threading.Thread(target=sched.worker, name=nm, args=(nm, (lambda nm=nm, o=o: work(nm, o))))
+               for nm, o in (("A", case["oa"]), ("B", case["ob"]))]
+        for t in ths:
+            t.start()
+        try:
+            for ch in case["schedule"]:
+                sched.step(ch)
+            a.load_model = orig_load
+            a.__dict__.pop("open", None)
+            cache = os.path.join(d, name + ".pymoca_cache")
+            size = os.path.getsize(cache) if os.path.exists(cache) else None
+            readers = {}
+            for nm, o in (("rA", case["oa"]), ("rB", case["ob"])):
+                snap = tempfile.mkdtemp(prefix="c21t_")
+                tmp.append(snap)
+                for f in os.listdir(d):
+                    shutil.copy2(os.path.join(d, f), snap)
+                start = len(PROXY.log)
+                try:
+                    m = a.transfer_model(snap, name, json.loads(json.dumps(o)))
+                    ok = signature(m) == reference(name, text, o)
+                    readers[nm] = {"out": "Loaded" if isinstance(m, a.CachedModel) else "Recompiled", "sig_ok": ok}
+                except BaseException as e:  # noqa
+                    readers[nm] = {"out": "Raised", "exc": type(e).__name__, "msg": str(e)[:160]}
+                readers[nm]["pl"] = PROXY.log[start] if len(PROXY.log) > start else None
+        finally:
+            a.load_model, a.open = load_model, op
+            for nm in ("A", "B"):
+                while not sched.done[nm]:
+                    sched.step(nm)
+            for t in ths:
+                t.join()
+            a.load_model = orig_load
+            a.__dict__.pop("open", None)
+        final = {}
+        for nm, o in (("fA", case["oa"]), ("fB", case["ob"])):
+            try:
+                m = a.transfer_model(d, name, json.loads(json.dumps(o)))
+                final[nm] = {"out": "Loaded" if isinstance(m, a.CachedModel) else "Recompiled",
+                             "sig_ok": signature(m) == reference(name, text, o)}
+            except BaseException as e:  # noqa
+                final[nm] = {"out": "Raised", "exc": type(e).__name__, "msg": str(e)[:160]}
+        return {"writers": res, "write_calls": writes, "size_at_read": size, "readers": readers, "final": final}
+    finally:
+        a.load_model = getattr(a.load_model, "__wrapped__", a.load_model)
+        for x in tmp:
+            shutil.rmtree(x, ignore_errors=True)
+
+
 def handler(case):
+    if case["kind"] == "torn":
+        return do_torn(case)
     if case["kind"] == "sweep":
         return do_sweep(case)
     if case["kind"] == "codegen":
